@@ -71,12 +71,13 @@ def main():
             demo_cmd = "cargo test --offline --test %s 2>&1 | tail -30" % demo_name
         else:
             demo_cmd = meta.get("demo_cmd")
+        is_script = not os.path.isfile(demo_src)
         rc1, o1 = sh(demo_cmd + "; exit ${PIPESTATUS[0]}", cwd=wt)
         demo_fails_with = ("test result: FAILED" in o1) or ("panicked" in o1 and "test result: ok" not in o1) or rc1 != 0
         ran.append("with patch: %s -> %s" % (demo_cmd, "fails" if demo_fails_with else "PASSES (unexpected)"))
         sh("git checkout -q -- .", cwd=wt)
         rc2, o2 = sh(demo_cmd + "; exit ${PIPESTATUS[0]}", cwd=wt)
-        demo_passes_without = "test result: ok" in o2 and "FAILED" not in o2
+        demo_passes_without = ("test result: ok" in o2 and "FAILED" not in o2) or (is_script and rc2 == 0 and "FAILED" not in o2)
         ran.append("clean HEAD: %s -> %s" % (demo_cmd, "passes" if demo_passes_without else "FAILS (unexpected): " + o2[-300:]))
         sh("git clean -fdq tests examples", cwd=wt)
         result["confirmed"] = bool(tests_pass and demo_fails_with and demo_passes_without)
@@ -117,6 +118,8 @@ def main():
         shutil.copy(patch, os.path.join(dst, "patch.diff"))
         if os.path.isfile(demo_src):
             shutil.copy(demo_src, os.path.join(dst, "demo.rs"))
+        elif os.path.isdir(os.path.join(out, "demo%s" % n)):
+            shutil.copytree(os.path.join(out, "demo%s" % n), os.path.join(dst, "demo"), dirs_exist_ok=True)
         old = {}
         if os.path.exists(os.path.join(dst, "meta.json")):
             old = json.load(open(os.path.join(dst, "meta.json")))
